@@ -148,6 +148,19 @@ class Conc:
             return [self.eval(args[0], params)]
         if name == "core::iter::sources::empty::empty":
             return []
+        OPT = "core::option::Option::<T>::"
+        if name == OPT + "filter":
+            o = self.eval(args[0], params)
+            return o if o is not None and self.call(args[1], [o[1]], params) else None
+        if name == OPT + "map":
+            o = self.eval(args[0], params)
+            return None if o is None else ("some", self.call(args[1], [o[1]], params))
+        if name == OPT + "and_then":
+            o = self.eval(args[0], params)
+            return None if o is None else self.call(args[1], [o[1]], params)
+        if name == OPT + "or":
+            o = self.eval(args[0], params)
+            return o if o is not None else self.eval(args[1], params)
         if name in (ITER + "max_by", ITER + "min_by", ITER + "fold"):
             raise CannotEvaluate("iterator primitive %s has no contract in the model" % name)
         raise CannotEvaluate("call " + name)
